@@ -2,7 +2,8 @@
 (* Spec -> code: all abstract records of the bounded class space with the expected outcome. *)
 EXTENDS DiscoveryParse, Json, IOUtils, SequencesExt, TLC
 
-CONSTANTS MaxAddrs, NumDev      \* address lists up to this length; at most NumDev numeric fields deviate from "valid"
+CONSTANTS MaxAddrs, NumDev,     \* address lists up to this length; at most NumDev numeric fields deviate from "valid"
+          Varieties            \* address varieties (field av) used for dual-stack address lists
 
 VARIABLE done
 Init == done = FALSE
@@ -12,11 +13,14 @@ Spec == Init /\ [][Next]_done
 NomVal == [c |-> 2, s |-> 3, sf |-> 1, ff |-> 2, ci |-> 5]
 NumAssign == {n \in [NumFields -> {ABSENT, BAD, 0}] : Cardinality({f \in NumFields : n[f] # 0}) <= NumDev}
 AddrLists == UNION {[1..k -> AddrClasses] : k \in 0..MaxAddrs}
-Mdns == {[kind |-> "mdns", idc |-> idc, kc |-> kc, addrs |-> al,
+\* every spelling variety where both families are usable (that is where "IPv4 first" decides), one otherwise
+Dual(al) == "v4" \in Range(al) /\ "v6" \in Range(al)
+ListAv == {p \in AddrLists \X Varieties : p[2] = 0 \/ Dual(p[1])}
+Mdns == {[kind |-> "mdns", idc |-> idc, kc |-> kc, addrs |-> p[1], av |-> p[2],
           c |-> IF n["c"] = 0 THEN NomVal.c ELSE n["c"], s |-> IF n["s"] = 0 THEN NomVal.s ELSE n["s"],
           sf |-> IF n["sf"] = 0 THEN NomVal.sf ELSE n["sf"], ff |-> IF n["ff"] = 0 THEN NomVal.ff ELSE n["ff"],
           ci |-> IF n["ci"] = 0 THEN NomVal.ci ELSE n["ci"]] :
-            idc \in {"absent", "lower", "upper"}, kc \in {"lower", "upper"}, al \in AddrLists, n \in NumAssign}
+            idc \in {"absent", "lower", "upper"}, kc \in {"lower", "upper"}, p \in ListAv, n \in NumAssign}
 Ble == {[kind |-> "ble", len |-> l, company |-> co, type |-> ty, sf |-> sf, ci |-> ci, s |-> s, c |-> c] :
           l \in 0..23, co \in {"apple", "other"}, ty \in {"hap", "enc", "other"}, sf \in {0, 1}, ci \in {5, 300},
           s \in {1, 65535}, c \in {1, 255}}
